@@ -30,12 +30,12 @@ PROPS = {
                       (["join", "try_join", "merge", "zip", "race", "chain"], "big", 0.05),
                       (["join", "try_join", "merge", "zip"], "waves", 0.08)],
                 assumptions=COMMON_ASSUME),
-    "C02": dict(monitor="C02", proj="C02", modules=["C02a", "C02b", "C02g"], cfgs=ALL3, quick=900, thorough=12000,
+    "C02": dict(monitor="C02", proj="C02", modules=["C02a", "C02b", "C02g"], ps=True, cfgs=ALL3, quick=900, thorough=12000,
                 gens=[(["join", "try_join", "race", "race_ok", "merge", "zip", "chain"], "exh", 0.4), (ALL_FIXED, "random", 1.0), (GROUPS, "random", 0.4), (ALL_FIXED + GROUPS, "panic", 0.5),
                       (["join", "try_join", "race_ok", "zip"], "big", 0.05)],
                 assumptions=COMMON_ASSUME + ["memory effects of unsafe code are outside the model; the model "
                                              "shows the bookkeeping never asks for a second drop"]),
-    "C03": dict(monitor="C03", proj="C03", modules=["C03", "C03g"], cfgs=ALL3, quick=900, thorough=12000,
+    "C03": dict(monitor="C03", proj="C03", modules=["C03", "C03g"], ps=True, cfgs=ALL3, quick=900, thorough=12000,
                 gens=[(["join", "try_join", "race", "race_ok", "merge", "zip", "chain"], "exh", 0.4), (["nest"], "random", 0.2), (ALL_FIXED, "random", 1.0), (GROUPS, "random", 0.5), (GROUPS, "refill", 0.3), (CONC, "stuck", 0.2)],
                 assumptions=COMMON_ASSUME),
     "C16": dict(monitor="C16", proj="C16", modules=["C16", "C16g"], cfgs=["std", "stdv"], ks=True, quick=2500, thorough=30000,
@@ -45,11 +45,11 @@ PROPS = {
     "C20": dict(monitors=["C20", "LV"], monitor="C20", proj="C20", modules=["C20", "C20g"], cfgs=ALL3V, ks=True, quick=900, thorough=12000,
                 gens=[(["join", "try_join", "merge", "zip"] + GROUPS, "mt", 0.3), (CONC, "drain", 0.5), (GROUPS, "drain", 0.3), (["join", "try_join", "race", "race_ok", "merge", "zip"], "exh", 0.4), (CONC, "random", 1.0), (GROUPS, "random", 0.5), (GROUPS, "refill", 0.5), (CONC + GROUPS, "stuck", 0.6)],
                 assumptions=COMMON_ASSUME),
-    "C04": dict(monitors=["C04", "NP", "LV"], monitor="C04", modules=["C04", "C01"], proj="FUN", cfgs=ALL3, quick=1500, thorough=20000,
+    "C04": dict(monitors=["C04", "NP", "LV"], monitor="C04", modules=["C04", "C01"], proj="FUN", ps=True, cfgs=ALL3, quick=1500, thorough=20000,
                 gens=[(["join"], "mt", 0.3), (["join"], "drain", 0.5), (["join"], "exh", 1.0), (["join"], "random", 1.0), (["join"], "stuck", 0.3), (["join"], "panic", 0.2),
                       (["join"], "big", 0.08), (["join"], "waves", 0.25)],
                 assumptions=COMMON_ASSUME),
-    "C05": dict(monitors=["C05", "C02", "NP", "LV"], monitor="C05", proj="FUN+C02", modules=["C05", "C02a", "C01"], cfgs=ALL3, quick=1500, thorough=20000,
+    "C05": dict(monitors=["C05", "C02", "NP", "LV"], monitor="C05", proj="FUN+C02", modules=["C05", "C02a", "C01"], ps=True, cfgs=ALL3, quick=1500, thorough=20000,
                 gens=[(["try_join"], "mt", 0.3), (["try_join"], "drain", 0.5), (["try_join"], "exh", 1.0), (["try_join"], "random", 1.0), (["try_join"], "errs", 0.6), (["try_join"], "stuck", 0.2),
                       (["try_join"], "panic", 0.2), (["try_join"], "big", 0.08), (["try_join"], "waves", 0.2)],
                 assumptions=COMMON_ASSUME),
